@@ -36,7 +36,9 @@ LEVEL_TEXT = ("Generated obligations decided in Lean on the regenerated effect i
               "every reachable state and every copy returns out(x) (full_sharp_history_independent).  Dynamic tie: random histories on real objects with snapshots of every caller-supplied structure, "
               "read-only vectors, re-seeding, deepcopy / pickle round trips.")
 LEVEL_NOTE = ("partial: syntactic effect analysis + dynamic histories; that pickle/deepcopy reproduce the object state (cache kept or dropped) "
-              "is the modelled assumption of copy_identical and is validated on the real object only; determinism of external libraries assumed")
+              "is the modelled assumption of copy_identical and is validated on the real object only; determinism of external libraries assumed; "
+              "keyed_cache_* (section D) are about a reference machine the unchanged tree does not contain (no point-dependent cache exists: effect inventory) - "
+              "they show that the back-to-back twin visits of every history decide exactly the caches keyed on too little")
 TECHNIQUE = "Lean 4 proof (induction over call histories, decide on a generated effect inventory) + dynamic history correspondence"
 
 
